@@ -751,6 +751,13 @@ def r8_converters(ctx, res):
                     res.find(key, 'wn/_add.py', f'metadata `{last}` is stored in non-META column {t}.{c}')
 
 
+def r9_no_shared_records(ctx, res):
+    """the records that add() builds before inserting (frames per sense, batches, lookup maps) do not share mutable
+    objects that are later updated in place, and no helper hands out a module-level object that a caller writes into."""
+    from ..sharing import report
+    report(ctx, res, {'_add'}, 'add')
+
+
 RULES = [
     ('C01-R1', r1_compile_arity, 150),
     ('C01-R2', r2_bindings, 200),
@@ -760,4 +767,5 @@ RULES = [
     ('C01-R6', r6_defaults, 4),
     ('C01-R7', r7_readers, 40),
     ('C01-R8', r8_converters, 8),
+    ('C01-R9', r9_no_shared_records, 3),
 ]
